@@ -217,6 +217,7 @@ func (c *FnCtx) evalCall(st *State, call *ast.CallExpr) []Term {
 	// receiver
 	var recv Term
 	hasRecv := false
+	addrOfValue := false // pointer-receiver method called on an addressable VALUE: &v is never nil
 	if sel, ok := ast.Unparen(call.Fun).(*ast.SelectorExpr); ok {
 		if s, ok := c.info.Selections[sel]; ok && s.Kind() == types.MethodVal {
 			hasRecv = true
@@ -231,7 +232,9 @@ func (c *FnCtx) evalCall(st *State, call *ast.CallExpr) []Term {
 				_, haveIsPtr := recv.T.Underlying().(*types.Pointer)
 				if !recvIsPtr && haveIsPtr {
 					if _, isIface := rt.Underlying().(*types.Interface); !isIface {
-						if nn, _, _ := derefNamedStruct(recv.T); nn != nil && !c.e.d.modelled(nn) {
+						if nn, _, _ := derefNamedStruct(recv.T); nn != nil && !c.e.d.modelled(nn) && !c.e.typedRefs {
+							// (packages that declare `typedrefs` take the other branch: p.M() reads the value p points at,
+							// exactly like an explicit (*p).M(), so &x / *p / p.M() agree on one cell)
 							// opaque dependency struct: a value-receiver method called through the pointer sees
 							// "the object"; the pointer stands for it (no separate value term)
 							if c.safety {
@@ -244,6 +247,7 @@ func (c *FnCtx) evalCall(st *State, call *ast.CallExpr) []Term {
 				}
 				if recvIsPtr && !haveIsPtr {
 					if _, isIface := recv.T.Underlying().(*types.Interface); !isIface {
+						addrOfValue = true
 						if dr, _ := isDroppedCallee(key); !dr {
 							if nn, _, _ := derefNamedStruct(recv.T); nn != nil && c.e.d.modelled(nn) {
 								panic(unsup("pointer-receiver method on addressable value at %s", c.pos(call.Pos())))
@@ -288,7 +292,9 @@ func (c *FnCtx) evalCall(st *State, call *ast.CallExpr) []Term {
 	c.callSiteAsserts(st, key, sig, recv, sig.Recv(), args, call.Pos())
 	if hasRecv && c.safety {
 		if _, isPtr := sig.Recv().Type().Underlying().(*types.Pointer); isPtr {
-			c.nilCheck(st, recv, call.Pos(), "receiver:"+fn.Name())
+			if !addrOfValue {
+				c.nilCheck(st, recv, call.Pos(), "receiver:"+fn.Name())
+			}
 		} else if _, isIface := sig.Recv().Type().Underlying().(*types.Interface); isIface {
 			c.nilCheck(st, recv, call.Pos(), "iface:"+fn.Name())
 		}
@@ -359,6 +365,7 @@ func (c *FnCtx) applyContract(st *State, fc *FuncContract, sig *types.Signature,
 	}
 	// higher-order step: the callee runs a closure argument on a fresh object
 	c.runInvokes(st, fc, sig, env, nil, pre, pos)
+	c.runIterates(st, fc, sig, env, pkg, pre, pos, key)
 	// havoc
 	c.havocModifies(st, fc, sc, pre)
 	// results
@@ -652,6 +659,7 @@ func (c *FnCtx) builtin(st *State, name string, call *ast.CallExpr) []Term {
 		case *types.Map:
 			r := c.newRef(st, "map")
 			m := Term{S: r, Sort: sV, T: t}
+			c.tagRef(st, m)
 			c.mapInit(st, m, u)
 			return []Term{m}
 		case *types.Chan:
@@ -676,9 +684,14 @@ func (c *FnCtx) builtin(st *State, name string, call *ast.CallExpr) []Term {
 		n, stt, _ := derefNamedStruct(t)
 		r := c.newRef(st, "new")
 		ref := Term{S: r, Sort: sV, T: types.NewPointer(t)}
+		c.tagRef(st, ref)
 		if n != nil && c.e.d.modelled(n) {
 			for i := 0; i < stt.NumFields(); i++ {
 				f := stt.Field(i)
+				if c.e.isInlineObj(n, f) {
+					c.writeStructTo(st, c.inlineRef(st, n, f, ref), Term{S: d.zero(d.sortOf(f.Type())), Sort: d.sortOf(f.Type()), T: f.Type()}, call.Pos(), true)
+					continue
+				}
 				so := d.sortOf(f.Type())
 				c.writeField(st, ref, n, f, Term{S: d.zero(so), Sort: so, T: f.Type()}, call.Pos(), true)
 			}
